@@ -171,8 +171,12 @@ func run(c *runner.Ctx, idx int) {
 		if budget <= 96 {
 			smallN = c.Rand.PickInt(3, 12, 48)
 		}
-		f := prog.RandomTables(c.Rand, prog.TableOptions{Entries: entries, PayloadBudget: budget, SmallN: smallN, ZeroSizes: true})
+		huge := (idx-len(corpus))%16 == 7
+		f := prog.RandomTables(c.Rand, prog.TableOptions{Entries: entries, PayloadBudget: budget, SmallN: smallN, ZeroSizes: true, Huge: huge})
 		s.b, s.name, s.kind = f.Bytes, f.DescriptionLabel, "generated"
+		if huge {
+			defer s.checkStretched(f)
+		}
 		extra := "none"
 		if c.Rand.Chance(1, 5) {
 			// an extra empty mdat box after everything else (the library allows
@@ -718,3 +722,60 @@ func (s *state) copySamples(mode string, f *mp4.File, trak *mp4.TrakBox, rs io.R
 		c.Violation(key+"/wrong-bytes", fmt.Sprintf("%s-mode CopySampleData(samples %d..%d, work buffer %d) writes %d bytes, the samples' bytes in the file are %d bytes and differ (%s)", mode, a, z, wsN, w.Len(), len(want), s.name), det())
 	}
 }
+
+// checkStretched serves the same movie as a file of more than 4 GiB (a hole of
+// about 2^32 zero bytes inside the mdat payload in front of a PRNG-chosen
+// chunk, chunk offsets behind it moved accordingly) through a virtual
+// ReadSeeker, decodes it lazily and copies sample intervals: the bytes must be
+// those of the compact twin. Only the lazy mode can be exercised at this size.
+func (s *state) checkStretched(f *prog.File) {
+	c := s.c
+	if len(f.ChunkOrder) == 0 {
+		return
+	}
+	at := c.Rand.Intn(len(f.ChunkOrder))
+	by := uint64(1)<<32 - uint64(c.Rand.PickInt(0, 1, 8, 4096)) + uint64(c.Rand.PickInt(0, 0, 16, 1<<20))
+	pre, suf, _, err := f.StretchedPieces(at, by)
+	if err != nil {
+		c.Count("stretched_not_applicable", 1)
+		return
+	}
+	compact, perr := stbl.ParseFile(f.Bytes)
+	if perr != nil {
+		return
+	}
+	rs := &sparseRS{prefix: pre, hole: int64(by), suffix: suf}
+	var fl *mp4.File
+	var derr error
+	if pi := c.Guard(func() { fl, derr = mp4.DecodeFile(rs, mp4.WithDecodeMode(mp4.DecModeLazyMdat)) }); pi != nil {
+		c.Violation("stretched/decode-panic/"+pi.TopFrame, "lazy DecodeFile of the >4 GiB twin panics: "+pi.Value, s.detail(map[string]interface{}{"hole": by, "before_chunk_order_index": at}))
+		return
+	}
+	if derr != nil || fl.Moov == nil || len(fl.Moov.Traks) != len(compact.Tracks) {
+		c.Violation("stretched/decode-error", fmt.Sprintf("lazy DecodeFile of the >4 GiB twin of %s fails: %v", s.name, derr), s.detail(map[string]interface{}{"hole": by, "before_chunk_order_index": at}))
+		return
+	}
+	c.Count("files_stretched_beyond_4GiB", 1)
+	name := s.name
+	s.name += fmt.Sprintf(" +hole(%d bytes before chunk-order index %d of %d)", by, at, len(f.ChunkOrder))
+	defer func() { s.name = name }()
+	for ti, tr := range compact.Tracks {
+		n := len(tr.Samples)
+		if n == 0 || tr.ExpandErr != nil {
+			continue
+		}
+		ivs := [][2]int{{1, n}, {1, 1}, {n, n}}
+		for i := 0; i < 10; i++ {
+			a := c.Rand.Range(1, n)
+			z := c.Rand.Range(a, n)
+			ivs = append(ivs, [2]int{a, z})
+		}
+		for _, iv := range ivs {
+			want, _ := tr.IntervalBytes(f.Bytes, iv[0], iv[1])
+			for _, wsN := range []int{0, 7, 4096} {
+				s.copySamples("lazy", fl, fl.Moov.Traks[ti], rs, iv[0], iv[1], wsN, want, "beyond-4GiB", tr)
+			}
+		}
+	}
+}
+
